@@ -345,7 +345,7 @@ MUTANTS = [
     M("selection forgets evidence", _S, "sliced.log_evidence = self.log_evidence\n        sliced.log_evidence_error = self.log_evidence_error\n\n        if self.log_w is not None:", "sliced.log_evidence_error = self.log_evidence_error\n\n        if self.log_w is not None:", "C16.ev"),
     M("selection of an unweighted set returns before the evidence is carried over", _S, "sliced = super().__getitem__(idx)\n        sliced.log_evidence = self.log_evidence", "sliced = super().__getitem__(idx)\n        if self.log_w is None:\n            return sliced\n        sliced.log_evidence = self.log_evidence", "C16.ev"),
     M("nested dictionary without the parameter list (reader falls back to sorted names)", _S, "else:\n            out[\"samples\"] = samples", "else:\n            del out[\"parameters\"]\n            out[\"samples\"] = samples", "C16.dictrt",
-      more=[("parameters = dictionary.pop(\"parameters\")\n            if parameters is None:", "parameters = dictionary.pop(\"parameters\", None)\n            if parameters is None:")]),
+      more=[("parameters = dictionary.pop(\"parameters\")\n            if parameters is None:\n                parameters = sorted", "parameters = dictionary.pop(\"parameters\", None)\n            if parameters is None:\n                parameters = sorted")]),
     M("SMC selection forgets beta", _S, "sliced.beta = self.beta\n", "", "C16.ev"),
     M("concatenate guard on another field", _S, "if all(s.log_prior is not None for s in samples)", "if all(s.log_q is not None for s in samples)", "C16.cat"),
     M("concatenate wrong axis", _S, "log_q=xp.concatenate([s.log_q for s in samples], axis=0)", "log_q=xp.concatenate([s.log_q for s in samples][::-1], axis=0)", "C16.cat"),
